@@ -33,6 +33,91 @@ static void corrupt(uint8_t *buf, size_t len)
 	if (len) buf[rng_below(&g_orng, (uint32_t)len)] ^= (uint8_t)(1u << rng_below(&g_orng, 8));
 }
 
+#include <sys/mman.h>
+#include <unistd.h>
+
+/* an in-memory file the library can open by name */
+static int memfile(const char *data, size_t len, char path[64])
+{
+	int fd = memfd_create("gmsim_pem", 0);
+	if (fd < 0) return -1;
+	if (len && write(fd, data, len) != (ssize_t)len) { close(fd); return -1; }
+	snprintf(path, 64, "/proc/self/fd/%d", fd);
+	return fd;
+}
+
+static char *pem_of_key(const SM2_KEY *k, const char *pass, size_t *len)
+{
+	char *mem = NULL;
+	FILE *f = open_memstream(&mem, len);
+	if (!f) return NULL;
+	int ret = sm2_private_key_info_encrypt_to_pem(k, pass, f);
+	fclose(f);
+	if (ret != 1) { free(mem); return NULL; }
+	return mem;
+}
+
+static char *pem_of_chain(const uint8_t *chain, size_t chainlen, size_t *len)
+{
+	char *mem = NULL;
+	FILE *f = open_memstream(&mem, len);
+	if (!f) return NULL;
+	int ret = x509_certs_to_pem(chain, chainlen, f);
+	fclose(f);
+	if (ret != 1) { free(mem); return NULL; }
+	return mem;
+}
+
+/* context setup from PEM files, the way the command-line tools do it: right password, wrong
+ * password, damaged or truncated key file */
+static void op_ctx_from_files(void)
+{
+	static const char *sign_pass = "S1gn-key-Passw0rd-4711", *kenc_pass = "Kenc-key-Passw0rd-0815";
+	const CredSet *cs = creds_get(1, 1);
+	TLS_CTX ctx;
+	char p_chain[64], p_sign[64], p_kenc[64], p_ca[64];
+	size_t l_chain = 0, l_sign = 0, l_kenc = 0, l_ca = 0;
+	int which = (int)rng_below(&g_orng, 3);           /* 0 TLCP server (two keys), 1 TLS 1.2 server, 2 TLS 1.3 client */
+	int fault = (int)rng_below(&g_orng, 6);           /* 0,1 none; 2 wrong sign password; 3 wrong kenc password; 4 damaged sign key; 5 truncated kenc key */
+	leak_add_secret("password", (const uint8_t *)sign_pass, strlen(sign_pass));
+	leak_add_secret("password", (const uint8_t *)kenc_pass, strlen(kenc_pass));
+	note_secret_key(&cs->srv_sign.key); note_secret_key(&cs->srv_enc.key); note_secret_key(&cs->cli_sign.key);
+	uint8_t chain[MAX_CHAIN]; size_t chainlen = 0;
+	const SM2_KEY *skey = which == 2 ? &cs->cli_sign.key : &cs->srv_sign.key;
+	if (which == 0) { memcpy(chain, cs->srv_chain, cs->srv_chain_len); chainlen = cs->srv_chain_len; }
+	else if (which == 1) { memcpy(chain, cs->srv_sign.cert, cs->srv_sign.certlen); chainlen = cs->srv_sign.certlen; }
+	else { memcpy(chain, cs->cli_chain, cs->cli_chain_len); chainlen = cs->cli_chain_len; }
+	char *m_chain = pem_of_chain(chain, chainlen, &l_chain);
+	char *m_ca = pem_of_chain(cs->trust, cs->trust_len, &l_ca);
+	char *m_sign = pem_of_key(skey, sign_pass, &l_sign);
+	char *m_kenc = pem_of_key(&cs->srv_enc.key, kenc_pass, &l_kenc);
+	if (!m_chain || !m_ca || !m_sign || !m_kenc) { unexpected("pem setup"); goto done; }
+	if (fault == 4 && l_sign > 120) m_sign[80 + rng_below(&g_orng, (uint32_t)(l_sign - 120))] ^= 2;
+	if (fault == 5 && l_kenc > 100) l_kenc -= 40 + rng_below(&g_orng, 40);
+	int f1 = memfile(m_chain, l_chain, p_chain), f2 = memfile(m_sign, l_sign, p_sign), f3 = memfile(m_kenc, l_kenc, p_kenc), f4 = memfile(m_ca, l_ca, p_ca);
+	if (f1 < 0 || f2 < 0 || f3 < 0 || f4 < 0) { unexpected("memfd"); goto closefds; }
+	int proto = which == 0 ? TLS_protocol_tlcp : which == 1 ? TLS_protocol_tls12 : TLS_protocol_tls13;
+	if (tls_ctx_init(&ctx, proto, which == 2 ? TLS_client_mode : TLS_server_mode) != 1) { unexpected("tls_ctx_init"); goto closefds; }
+	int ret;
+	if (which == 0)
+		ret = tls_ctx_set_tlcp_server_certificate_and_keys(&ctx, p_chain, p_sign, fault == 2 ? "not the sign password" : sign_pass,
+			p_kenc, fault == 3 ? "not the kenc password" : kenc_pass);
+	else
+		ret = tls_ctx_set_certificate_and_key(&ctx, p_chain, p_sign, fault == 2 ? "not the sign password" : sign_pass);
+	int expect_ok = fault < 2 || (which != 0 && (fault == 3 || fault == 5));
+	if (expect_ok && ret != 1) unexpected("tls_ctx_set_*certificate*");
+	if (!expect_ok && ret == 1 && fault != 4) unexpected("tls_ctx_set_* accepted a wrong password / damaged key");
+	(void)tls_ctx_set_ca_certificates(&ctx, p_ca, TLS_DEFAULT_VERIFY_DEPTH);
+	tls_ctx_cleanup(&ctx);
+closefds:
+	if (f1 >= 0) close(f1);
+	if (f2 >= 0) close(f2);
+	if (f3 >= 0) close(f3);
+	if (f4 >= 0) close(f4);
+done:
+	free(m_chain); free(m_ca); free(m_sign); free(m_kenc);
+}
+
 static void ops_sequence(void *arg)
 {
 	const Plan *p = arg;
@@ -47,7 +132,8 @@ static void ops_sequence(void *arg)
 	note_secret_key(&key); note_secret_key(&key2);
 
 	for (int i = 0; i < n; i++) {
-		int op = (int)rng_below(&g_orng, 10);
+		int op = (int)rng_below(&g_orng, 12);
+		if (op >= 10) { g_nops_done++; op_ctx_from_files(); continue; }
 		int bad = rng_chance(&g_orng, 1, 3);        /* take a failure path */
 		g_nops_done++;
 		switch (op) {
